@@ -1,6 +1,8 @@
 package sim
 
 import (
+	"syscall"
+	"unsafe"
 	"encoding/json"
 	"errors"
 	"fmt"
@@ -286,6 +288,12 @@ var chainFiles = map[string]string{
 	"root/a/defs.lisp":      `(defun load-sibling () (load-file "f1.lisp"))`,
 	"root/call.lisp":        `(load-file "a/defs.lisp") (load-sibling)`,
 	"root/a/b/deep.lisp":    `(load-file "../../../outside/f2.lisp")`,
+	// several loads issued by ONE top-level form through a builtin that calls
+	// load-file itself: each resolves against this file's directory, whatever
+	// the previous load evaluated
+	"root/a/chain-map.lisp":  `(map 'list load-file '("b/f2.lisp" "f1.lisp"))`,
+	"root/a/chain-fold.lisp": `(foldl (lambda (acc l) (load-file l)) () '("b/f2.lisp" "f1.lisp" "../f0.lisp"))`,
+	"root/chain-app.lisp":    `(list (apply load-file '("a/f1.lisp")) (funcall load-file "f0.lisp"))`,
 }
 
 type chainStep struct{ loc, from string }
@@ -299,6 +307,9 @@ var chainSteps = map[string][]chainStep{
 	"root/a/chain2.lisp":    {{"chain.lisp", ""}},
 	"root/call.lisp":        {{"a/defs.lisp", ""}, {"f1.lisp", "root/a/defs.lisp"}},
 	"root/a/b/deep.lisp":    {{"../../../outside/f2.lisp", ""}},
+	"root/a/chain-map.lisp":  {{"b/f2.lisp", ""}, {"f1.lisp", ""}},
+	"root/a/chain-fold.lisp": {{"b/f2.lisp", ""}, {"f1.lisp", ""}, {"../f0.lisp", ""}},
+	"root/chain-app.lisp":    {{"a/f1.lisp", ""}, {"f0.lisp", ""}},
 }
 
 // chainSim lists the files evaluated when entry is loaded, given how a nested
@@ -465,14 +476,22 @@ func (c *FsCase) locations(d *fsDisk) []fsLoad {
 	}
 	// files that load other files, entered directly and through links
 	for _, l := range []string{"a/chain.lisp", "a/chain-up.lisp", "a/chain-out.lisp", "a/chain2.lisp", "call.lisp", "a/b/deep.lisp", "lchain.lisp", "a/b/lup.lisp",
-		"a/../a/chain.lisp", "./call.lisp"} {
+		"a/../a/chain.lisp", "./call.lisp", "a/chain-map.lisp", "a/chain-fold.lisp", "chain-app.lisp"} {
 		out = append(out, fsLoad{via: "load-file", loader: "root/f0.lisp", loc: l})
 	}
 	out = append(out, fsLoad{via: "load-file", loader: "root/a/f1.lisp", loc: "chain.lisp"}, fsLoad{via: "load-file", loader: "root/a/f1.lisp", loc: "../call.lisp"},
 		fsLoad{via: "load-file", loader: "root/f0.lisp", loc: d.base + "/root/a/chain2.lisp"})
+	// relative loads issued by code that was read from a STRING carrying a
+	// label that looks like a path
+	for i, label := range []string{"@/root/a/inline.lisp", "root/a/inline.lisp", "a/inline.lisp", "@/outside/inline.lisp", "outside/o/x.lisp", "@/root/a/b/z.lisp", "../outside/y.lisp", "@/root/inline.lisp"} {
+		for j, l := range []string{"f1.lisp", "f0.lisp", "s0.lisp", "f2.lisp", "../f0.lisp", "a/f1.lisp", "b/f2.lisp", "x0.lisp", "../outside/s0.lisp", "s1.lisp", "root/f0.lisp"} {
+			out = append(out, fsLoad{via: fmt.Sprintf("named-string-%d", (i+j)%3), loader: label, loc: l})
+		}
+	}
 	// end-to-end loads through (load-file ...) evaluated from a loader file
+	nBefore := len(out) - 88
 	for i := 0; i < 60 && len(c.Picks) > 0; i++ {
-		l := out[pick(len(out))]
+		l := out[pick(nBefore)]
 		if l.loader == "" || strings.HasSuffix(l.loader, "/boot.lisp") {
 			l.loader = "root/a/f1.lisp"
 		}
@@ -592,6 +611,12 @@ func (fsEngine) Run(ci any, st *Stats) *Violation {
 		return Violf("harness", "adversary cases need a simulator built with -tags verif")
 	}
 
+	watch := newDiskWatch(d, c.Nodes)
+	defer watch.close()
+	if watch == nil {
+		st.Inc("inotify_unavailable")
+	}
+
 	resolveRoot := func() bool {
 		real, kind, ok := d.spec.resolve(rootComps())
 		if !ok || kind != "dir" {
@@ -633,6 +658,7 @@ func (fsEngine) Run(ci any, st *Stats) *Violation {
 		}
 		undo = undo[:0]
 		advFired = false
+		watch.drain()
 		fail := func(oracle, format string, a ...any) *Violation {
 			c.hintLoc, c.hintLoader, c.hintVia = strings.ReplaceAll(ld.loc, d.base, "@"), ld.loader, ld.via
 			msg := strings.ReplaceAll(fmt.Sprintf(format, a...), d.base, "@")
@@ -650,7 +676,33 @@ func (fsEngine) Run(ci any, st *Stats) *Violation {
 		var served []string // contents served / evaluated
 		var lerr error
 		var evaluated []string
+		namedString := false
 		switch ld.via {
+		case "named-string-0", "named-string-1", "named-string-2":
+			// code evaluated from a string has no loading file, whatever its
+			// label says: the label must not steer a relative load
+			namedString = true
+			variant := int(ld.via[len(ld.via)-1] - '0')
+			label := strings.ReplaceAll(ld.loader, "@", d.base)
+			base, baseErr, gp0, err := namedStringRun(lib, "", loc, variant)
+			if err != nil {
+				return Violf("harness", "%v", err)
+			}
+			got, gotErr, gp1, err := namedStringRun(lib, label, loc, variant)
+			if err != nil {
+				return Violf("harness", "%v", err)
+			}
+			st.Runs++
+			if gp0+gp1 != "" {
+				return fail("go-panic-escaped", "%s%s", gp0, gp1)
+			}
+			if baseErr != gotErr || strings.Join(base, " ") != strings.Join(got, " ") {
+				return fail("string-label-steers-load", "a source string labelled %q evaluated %v (error: %v); the same string under its default name evaluated %v (error: %v)", ld.loader, got, gotErr, base, baseErr)
+			}
+			evaluated = got
+			if gotErr {
+				lerr = errors.New("load failed")
+			}
 		case "load-file":
 			w, err := NewWorld(Knobs{})
 			if err != nil {
@@ -695,8 +747,30 @@ func (fsEngine) Run(ci any, st *Stats) *Violation {
 				_ = trueloc
 			}
 		}
+		// nothing outside the root is opened or read, served or refused
+		// (checked when no adversary is configured: its own moves read files)
+		if c.Adv == nil {
+			for _, p := range watch.drain() {
+				if n, ok := d.spec.nodes[p]; ok && n.Kind == "file" && !insideRoot(p) {
+					for _, u := range undo {
+						u()
+					}
+					return fail("outside-file-read", "the file %q, whose real path is outside the root, was opened or read (load error: %v)", p, lerr)
+				}
+			}
+		}
 		for _, u := range undo {
 			u()
+		}
+		if namedString {
+			st.Inc("loads_from_named_strings")
+			for _, node := range evaluated {
+				if !insideRoot(node) {
+					return fail("evaluated-outside-root", "evaluated the file %q, whose real path is outside the root", node)
+				}
+			}
+			h = h.Str(strings.Join(evaluated, " "))
+			continue
 		}
 		if advFired {
 			st.Inc("fault_adversary_" + c.Adv.Kind + "_fired")
@@ -981,7 +1055,7 @@ func runMemFS(c *FsCase, st *Stats) *Violation {
 	// contains the call, which the library knows only through the true
 	// location it reported for that file
 	entries := []string{"root/a/chain.lisp", "root/a/chain-up.lisp", "root/a/chain-out.lisp", "root/a/chain2.lisp", "root/call.lisp", "root/a/b/deep.lisp",
-		"root/a/../a/chain2.lisp", "./root/call.lisp", "root//a/chain.lisp"}
+		"root/a/../a/chain2.lisp", "./root/call.lisp", "root//a/chain.lisp", "root/a/chain-map.lisp", "root/a/chain-fold.lisp", "root/chain-app.lisp"}
 	if c.OnlyVia == "load-file" {
 		entries = []string{c.OnlyLoc}
 	} else if c.OnlyLoc != "" {
@@ -1038,6 +1112,38 @@ func runMemFS(c *FsCase, st *Stats) *Violation {
 			h = h.Str(strings.Join(evaluated, " "))
 		}
 	}
+	// code read from a labelled STRING has no loading file: the label must
+	// not steer its relative loads
+	if c.OnlyLoc == "" || strings.HasPrefix(c.OnlyVia, "named-string") {
+		labels := []string{"root/a/inline.lisp", "a/x.lisp", "root/inline.lisp", "outside/o/y.lisp", "./root/a/b/z.lisp"}
+		nlocs := []string{"f1.lisp", "f0.lisp", "root/f0.lisp", "a/f1.lisp", "../f0.lisp", "s0.lisp", "b/f2.lisp", "root/a/f1.lisp"}
+		for i, label := range labels {
+			for j, loc := range nlocs {
+				variant := (i + j) % 3
+				if c.OnlyLoc != "" {
+					if label != c.OnlyLoader || loc != c.OnlyLoc || fmt.Sprintf("named-string-%d", variant) != c.OnlyVia {
+						continue
+					}
+				}
+				lib := &lisp.FSLibrary{FS: &memFS{files: files}}
+				base, baseErr, gp0, err := namedStringRun(lib, "", loc, variant)
+				if err != nil {
+					return Violf("harness", "%v", err)
+				}
+				got, gotErr, gp1, err := namedStringRun(lib, label, loc, variant)
+				if err != nil {
+					return Violf("harness", "%v", err)
+				}
+				st.Runs++
+				st.Inc("loads_from_named_strings")
+				if gp0+gp1 != "" || baseErr != gotErr || strings.Join(base, " ") != strings.Join(got, " ") {
+					c.hintLoc, c.hintLoader, c.hintVia = loc, label, fmt.Sprintf("named-string-%d", variant)
+					return Violf("string-label-steers-load", "fs.FS library, location %q: a source string labelled %q evaluated %v (error: %v, panic: %q); the same string under its default name evaluated %v (error: %v)", loc, label, got, gotErr, gp0+gp1, base, baseErr)
+				}
+				h = h.Str(strings.Join(got, " "))
+			}
+		}
+	}
 	st.NoteHash(h, true)
 	return nil
 }
@@ -1084,4 +1190,107 @@ func (fsEngine) Shrink(ci any) []any {
 		}
 	}
 	return out
+}
+
+// ------------------------------------------------ observing reads of the disk
+
+// diskWatch reports which files of the layout were opened or read, through
+// inotify watches on every real directory of the layout.  It is how "no part
+// of the outside file is read" becomes observable when the load is refused.
+type diskWatch struct {
+	fd   int
+	dirs map[int32]string // watch descriptor -> directory path relative to base ("" = base)
+}
+
+func newDiskWatch(d *fsDisk, nodes []FsNode) *diskWatch {
+	fd, err := syscall.InotifyInit1(syscall.IN_NONBLOCK | syscall.IN_CLOEXEC)
+	if err != nil {
+		return nil
+	}
+	w := &diskWatch{fd: fd, dirs: map[int32]string{}}
+	add := func(rel string) {
+		if wd, err := syscall.InotifyAddWatch(fd, filepath.Join(d.base, rel), syscall.IN_OPEN|syscall.IN_ACCESS); err == nil {
+			w.dirs[int32(wd)] = rel
+		}
+	}
+	add("")
+	for _, n := range nodes {
+		if n.Kind == "dir" {
+			add(n.Path)
+		}
+	}
+	return w
+}
+
+func (w *diskWatch) close() {
+	if w != nil {
+		_ = syscall.Close(w.fd)
+	}
+}
+
+// drain returns the layout paths of the non-directory entries opened or read
+// since the last call, in order, without duplicates.
+func (w *diskWatch) drain() []string {
+	if w == nil {
+		return nil
+	}
+	var out []string
+	seen := map[string]bool{}
+	buf := make([]byte, 16384)
+	for {
+		n, err := syscall.Read(w.fd, buf)
+		if err != nil || n <= 0 {
+			return out
+		}
+		for off := 0; off+syscall.SizeofInotifyEvent <= n; {
+			ev := (*syscall.InotifyEvent)(unsafe.Pointer(&buf[off]))
+			name := strings.TrimRight(string(buf[off+syscall.SizeofInotifyEvent:off+syscall.SizeofInotifyEvent+int(ev.Len)]), "\x00")
+			off += syscall.SizeofInotifyEvent + int(ev.Len)
+			if ev.Mask&syscall.IN_ISDIR != 0 || name == "" {
+				continue
+			}
+			p := name
+			if dir := w.dirs[ev.Wd]; dir != "" {
+				p = dir + "/" + name
+			}
+			if !seen[p] {
+				seen[p] = true
+				out = append(out, p)
+			}
+		}
+	}
+}
+
+// ------------------------------------------- sources that are not files
+
+// namedStringRun evaluates (load-file loc) from a source that is a STRING, not
+// a file, under the free-text label `label` ("" = the default name), and
+// returns the files evaluated and whether the load failed.
+func namedStringRun(lib lisp.SourceLibrary, label, loc string, variant int) (marks []string, isErr bool, goPanic string, err error) {
+	w, err := NewWorld(Knobs{})
+	if err != nil {
+		return nil, false, "", err
+	}
+	w.RT.Library = lib
+	src := fmt.Sprintf("(load-file %s)", LispString(loc))
+	name := ""
+	if label != "" {
+		name = " :name " + LispString(label)
+	}
+	var out Outcome
+	switch variant % 3 {
+	case 0:
+		if label == "" {
+			label = "snippet"
+		}
+		out = w.Call(func() *lisp.LVal { return w.Env.LoadString(label, src) })
+	case 1:
+		out = w.LoadString(fmt.Sprintf("(load-string %s%s)", LispString(src), name))
+	default:
+		out = w.LoadString(fmt.Sprintf("(load-bytes (to-bytes %s)%s)", LispString(src), name))
+	}
+	for _, m := range w.Marks {
+		marks = append(marks, strings.Trim(m, "\""))
+	}
+	return marks, out.IsErr, out.GoPanic, nil
 }
